@@ -19,6 +19,7 @@ func init() {
 			"R14.5 the client writers use the same header constant as the server reads, base64.StdEncoding for user:password (what net/http's BasicAuth decodes), the \"Bearer \" prefix, and the given key name/location; R14.6 the transport-wide default credential is wrapped in only when the operation has no AuthInfo, and applied only when no Authorization header is set. " +
 			"R14.5 also: the snapshot of client-set query parameters in buildHTTP is taken after the auth writer ran. " +
 			"R14.2 also: the HttpAuthenticator / ScopedAuthenticator adapters call the scheme for every parameter they recognise as a request. " +
+			"R14.5 also: a caller's list of auth writers is never filtered in place; R14.6 also: an operation rebuilt by a transport wrapper keeps its AuthInfo. " +
 			"NOT decided: string round-trip equality of the encodings (net/http, encoding/base64).",
 		Run: runC14,
 	})
